@@ -35,6 +35,17 @@ def gen_cfgs(ctx, n):
         it = ['f1'] * accum + ['s']
         cfg.ops = it + ['v1'] + ['f1'] * rng.randrange(1, accum + 1) + ['r'] + it + ['v1'] + it + ['v1']
         cfgs.append(cfg)
+    # directed: factor_decay driven by the real LambdaParamScheduler (stepped after preconditioner.step(), the documented
+    # order): the very next factor update uses the decay now in force
+    for hook in (True, False):
+        cfg = kfacsim.Config(rng, world=rng.choice([1, 2]), hook=hook)
+        cfg.hyper['factor_decay'] = Fraction(9, 10)
+        cfg.hyper['factor_update_steps'] = 1
+        cfg.hyper_changes = [{'factor_decay': Fraction(18, 25)}, {'factor_decay': Fraction(9, 25)}]
+        cfg.hyper_factors = [{'factor_decay': Fraction(4, 5)}, {'factor_decay': Fraction(1, 2)}]
+        it = ['f1'] * cfg.accum + ['s']
+        cfg.ops = it + ['v1', 'h:0'] + it + ['v1', 'h:1'] + it + ['v1'] + it + ['v1']
+        cfgs.append(cfg)
     # directed: factors stored in float32 (the dtype the inverses / decompositions are computed in, so `.to(float32)` is the
     # factor itself) with explicit inverses and with eigendecompositions, inverse updates on steps that are not factor-update
     # steps: computing second-order data leaves the stored factor untouched
@@ -385,8 +396,43 @@ def update_stream(ctx):
             ctx.count('update-stream-accum%d' % nb)
 
 
+def half_caps_stream(ctx):
+    """factors stored in float16 / bfloat16 on 2–3 ranks: the averaged factor every rank holds is the same whether the
+    all-reduce is per tensor (capacity 0) or bucketed — one average over the ranks, applied once"""
+    import copy
+    rng = ctx.rng
+    for b in range(ctx.budget(4, 24)):
+        base = kfacsim.Config(rng, world=rng.choice([2, 3]), nest=False, prediv=False)
+        base.inv16, base.inv32, base.fac32, base.keepgrad = False, False, False, False
+        base.fac16 = True if b % 2 else 'f16'
+        base.hyper['factor_update_steps'] = 1
+        base.hyper['kl_clip'] = None
+        base.ops = (['f1'] * base.accum + ['s']) * 2 + ['v1']
+        outs = []
+        for cap in (0.0, 25.0):
+            v = copy.copy(base)
+            v.cap_mb = cap
+            rr = kfacsim.run_real(v, sched_seed=ctx.seed * 83 + b)
+            if kfacsim.run_failed(rr):
+                ctx.fail(f'run failed: {kfacsim.run_failed(rr)}', v.describe(), 'half-caps-run')
+                break
+            outs.append([rr.res[r]['ops'][-1]['factors'] for r in range(v.world)])
+        else:
+            worst = 0.0
+            for r in range(base.world):
+                for (a0, g0), (a1, g1) in zip(outs[0][r], outs[1][r]):
+                    worst = max(worst, kfacsim.relerr(a0, a1), kfacsim.relerr(g0, g1))
+            if worst > 2e-2:
+                ctx.fail(f'{"float16" if base.fac16 == "f16" else "bfloat16"} factors differ by {worst:.2e} between the per-tensor and the bucketed '
+                         'all-reduce (the average over the ranks is applied once in both)', dict(base.describe(), caps=[0.0, 25.0]), 'half-caps-factor')
+        ctx.evaluations += 1
+        ctx.case(('half-caps', str(base.describe())), nontrivial=True)
+        ctx.count('half-caps')
+
+
 def run(ctx):
     update_stream(ctx)
+    half_caps_stream(ctx)
     kfacsim.run_batch(ctx, gen_cfgs(ctx, ctx.budget(60, 600)), STREAMS,
                       oracles=(kfacsim.oracle_factors,), whole_only_oracles=False)
     dtype_stream(ctx)
